@@ -7,8 +7,8 @@
    Input of model and specification: the annotations (inspect.getfullargspec(f).annotations, any number of parameters of
    any kind, in any order) and the *parsed* docstring as docstring_parser returns it.
 
-   Two open findings (known_findings.json) are mirrored here by `_refuted` theorems; the property is proved as
-   `_partial` under the narrowest guard excluding them, the full statements stay visible in comments.            *)
+   The two findings of the first round (C19-untyped-param, C19-pipe-union-context) are fixed in /repo (d123a44, 2108a61):
+   the statements below are the full ones; the former `_refuted` witnesses are kept as Examples of the repaired behaviour. *)
 From Coq Require Import List ZArith Bool String.
 From PV Require Import Base.Exn Model.DocstringTyping Model.Docstring Spec.DocstringSpec Gen.Docstring
   Proofs.DocstringTy Proofs.DocstringEvalLemmas Proofs.DocstringRef Proofs.DocstringMain Proofs.DocstringWf.
@@ -28,7 +28,7 @@ Print Assumptions C19_prog_is_canonical.
    by the correspondence stream `typing`) has the pinned structure.                                             *)
 Theorem C19_structure :
   check_runs_at_decoration_time = true /\ require_shortcut_ok = true /\ class_shortcut_ok = true /\
-  accessors_ok = true /\ eval_uses_module_globals_and_context = true /\ update_context_sha = "074fb7020b6c119b".
+  accessors_ok = true /\ eval_uses_module_globals_and_context = true /\ update_context_sha = "7c734fcb68de5321".
 Proof. repeat split; reflexivity. Qed.
 Print Assumptions C19_structure.
 
@@ -64,55 +64,31 @@ Proof.
 Qed.
 Print Assumptions C19_accepted_is_consistent.
 
-(* Full statement (false on the current code, see C19_accepts_iff_consistent_refuted):
-     forall scope req ann doc, sig_ok ann = true -> scope_ok scope ann = true -> doc_no_typing_dot doc = true ->
-       (check docstring_prog (fc req ann doc) = Ok tt <-> consistent scope ann doc).
-   Proved under the guard `ctx_covers [] ann`: every class an annotation mentions has been collected by
-   _update_context when the entry of that annotation is parsed (open finding C19-pipe-union-context:
-   classes under `X | Y` are not collected).                                                                       *)
-Theorem C19_accepts_iff_consistent_partial : forall scope req ann doc,
+(* decoration-time acceptance is exactly consistency.  `doc_no_typing_dot`: pedantic rejects the *spelling* "typing." in a
+   documented type as such; a documented type written that way is not an expression of the vocabulary anyway.            *)
+Theorem C19_accepts_iff_consistent : forall scope req ann doc,
   sig_ok ann = true -> scope_ok scope ann = true -> doc_no_typing_dot doc = true ->
-  ctx_covers [] ann = true ->
   (check docstring_prog (fc req ann doc) = Ok tt <-> consistent scope ann doc).
 Proof.
-  intros scope req ann doc Hs Hsc Hdot Hcov. rewrite C19_prog_is_canonical, check_canonical. split.
+  intros scope req ann doc Hs Hsc Hdot. rewrite C19_prog_is_canonical, check_canonical. split.
   - eapply accepted_consistent; eauto.
   - eapply consistent_accepted; eauto.
 Qed.
-Print Assumptions C19_accepts_iff_consistent_partial.
+Print Assumptions C19_accepts_iff_consistent.
 
-(* the guard holds for every signature whose annotations contain no `X | Y` union *)
-Theorem C19_accepts_iff_consistent_no_pipe : forall scope req ann doc,
-  sig_ok ann = true -> scope_ok scope ann = true -> doc_no_typing_dot doc = true ->
-  forallb (fun kv => no_pipe (snd kv)) ann = true ->
-  (check docstring_prog (fc req ann doc) = Ok tt <-> consistent scope ann doc).
-Proof.
-  intros scope req ann doc Hs Hsc Hdot Hp. apply C19_accepts_iff_consistent_partial; try assumption.
-  apply no_pipe_ctx_covers. intros k t Hin. rewrite forallb_forall in Hp. split.
-  - eapply (sf_ann_ok _ (sig_ok_facts _ Hs)); eauto.
-  - apply (Hp (k, t) Hin).
-Qed.
-Print Assumptions C19_accepts_iff_consistent_no_pipe.
+(* _update_context collects every class an annotation mentions (also under X | Y, since 2108a61) before the entry of that
+   annotation is parsed: the fact behind the "consistent => accepted" direction *)
+Theorem C19_context_complete : forall ann, sig_ok ann = true -> ctx_covers [] ann = true.
+Proof. intros ann H. apply ann_ok_ctx_covers. apply (sf_ann_ok _ (sig_ok_facts _ H)). Qed.
+Print Assumptions C19_context_complete.
 
 Definition dt (text : string) (e : texpr) : dtype := {| dt_text := text; dt_expr := e |}.
 
-(* def f(a: Foo | None) with `a (Foo | None): ...`: consistent, and rejected *)
-Theorem C19_accepts_iff_consistent_refuted : exists scope req ann doc,
-  sig_ok ann = true /\ scope_ok scope ann = true /\ doc_no_typing_dot doc = true /\
-  consistent scope ann doc /\ check docstring_prog (fc req ann doc) = Raise PDocstringC.
-Proof.
-  exists ["Foo"; "NoneType"], true, [("a", TPipe [TCls "Foo"; TCls "NoneType"])],
-         (mkdoc RawText [("a", Some (dt "Foo | None" (EOr (EName "Foo") ENone)))] None).
-  split; [vm_compute; reflexivity|]. split; [vm_compute; reflexivity|]. split; [vm_compute; reflexivity|]. split; [|vm_compute; reflexivity].
-  apply consistentb_iff; [apply nodupb_NoDup; vm_compute; reflexivity|vm_compute; reflexivity].
-Qed.
-Print Assumptions C19_accepts_iff_consistent_refuted.
-
 (* ---- rejection: always PedanticDocstringException ------------------------------------------------------------------- *)
-(* whenever every documented parameter has a type and every documented type can be evaluated (or names
-   something undefined), the check raises nothing but PedanticDocstringException: no IndexError, no TypeError *)
+(* whenever every documented type that is present can be evaluated (or names something undefined), the check raises
+   nothing but PedanticDocstringException: no IndexError, no TypeError, no AttributeError *)
 Theorem C19_only_docstring_exception : forall scope req ann doc,
-  sig_ok ann = true -> scope_ok scope ann = true -> doc_typed doc = true -> doc_evaluable scope doc = true ->
+  sig_ok ann = true -> scope_ok scope ann = true -> doc_evaluable scope doc = true ->
   check docstring_prog (fc req ann doc) = Ok tt \/ check docstring_prog (fc req ann doc) = Raise PDocstringC.
 Proof.
   intros. rewrite C19_prog_is_canonical, check_canonical. eapply only_docstring_exception; eauto.
@@ -120,53 +96,36 @@ Qed.
 Print Assumptions C19_only_docstring_exception.
 
 Theorem C19_rejects_inconsistent : forall scope req ann doc,
-  sig_ok ann = true -> scope_ok scope ann = true -> doc_typed doc = true -> doc_evaluable scope doc = true ->
+  sig_ok ann = true -> scope_ok scope ann = true -> doc_evaluable scope doc = true ->
   ~ consistent scope ann doc -> check docstring_prog (fc req ann doc) = Raise PDocstringC.
 Proof.
   intros. rewrite C19_prog_is_canonical, check_canonical. eapply inconsistent_rejected; eauto.
 Qed.
 Print Assumptions C19_rejects_inconsistent.
 
-(* Full statement (false on the current code, see C19_one_edit_rejected_refuted):
-     forall scope req ann doc doc', sig_ok ann = true -> scope_ok scope ann = true ->
-       consistent scope ann doc -> one_edit scope doc doc' -> check docstring_prog (fc req ann doc') = Raise PDocstringC.
-   Proved for every edit except the removal of the type of a documented parameter (open finding C19-untyped-param).
-   Edits covered: drop / add / rename a documented parameter (also onto the name of another one), change one
-   documented type (any evaluable expression with a different denotation: a change at any nesting depth), drop / add /
-   alter the Returns entry, Returns without a type.  No guard about `X | Y` is needed here.                      *)
-Theorem C19_one_edit_rejected_partial : forall scope req ann doc doc',
+(* every single edit of a consistent docstring: drop / add / rename a documented parameter (also onto the name of another
+   one), change one documented type (any evaluable expression with a different denotation: a change at any nesting depth),
+   remove the type of a documented parameter, drop / add / alter the Returns entry, Returns without a type *)
+Theorem C19_one_edit_rejected : forall scope req ann doc doc',
   sig_ok ann = true -> scope_ok scope ann = true ->
-  consistent scope ann doc -> one_edit scope doc doc' -> ~ is_untype_param doc doc' ->
+  consistent scope ann doc -> one_edit scope doc doc' ->
   check docstring_prog (fc req ann doc') = Raise PDocstringC.
 Proof.
   intros. rewrite C19_prog_is_canonical, check_canonical. eapply one_edit_rejected; eauto.
 Qed.
-Print Assumptions C19_one_edit_rejected_partial.
+Print Assumptions C19_one_edit_rejected.
 
 (* ... and therefore decoration fails, whenever the check applies to the edited docstring *)
 Theorem C19_one_edit_rejected_at_decoration : forall scope req ann doc doc',
   sig_ok ann = true -> scope_ok scope ann = true ->
-  consistent scope ann doc -> one_edit scope doc doc' -> ~ is_untype_param doc doc' ->
+  consistent scope ann doc -> one_edit scope doc doc' ->
   applies req doc' = true ->
   decorate docstring_prog (fc req ann doc') = Raise PDocstringC.
 Proof.
-  intros scope req ann doc doc' Hs Hsc Hc He Hn Ha. rewrite C19_trigger.
-  cbn [fc mkfc f_parser f_require f_doc andb]. rewrite Ha. eapply C19_one_edit_rejected_partial; eauto.
+  intros scope req ann doc doc' Hs Hsc Hc He Ha. rewrite C19_trigger.
+  cbn [fc mkfc f_parser f_require f_doc andb]. rewrite Ha. eapply C19_one_edit_rejected; eauto.
 Qed.
 Print Assumptions C19_one_edit_rejected_at_decoration.
-
-(* def f(a: int) with `a: ...` instead of `a (int): ...`: a single edit of a consistent docstring, TypeError *)
-Theorem C19_one_edit_rejected_refuted : exists scope req ann doc doc',
-  sig_ok ann = true /\ scope_ok scope ann = true /\ consistent scope ann doc /\ one_edit scope doc doc' /\
-  check docstring_prog (fc req ann doc') = Raise TypeErrorC.
-Proof.
-  exists ["int"], true, [("a", TCls "int")],
-         (mkdoc RawText ([] ++ ("a", Some (dt "int" (EName "int"))) :: []) None),
-         (mkdoc RawText ([] ++ ("a", None) :: []) None).
-  split; [vm_compute; reflexivity|]. split; [vm_compute; reflexivity|]. split; [|split; [apply E_untype_param|vm_compute; reflexivity]].
-  apply consistentb_iff; [apply nodupb_NoDup; vm_compute; reflexivity|vm_compute; reflexivity].
-Qed.
-Print Assumptions C19_one_edit_rejected_refuted.
 
 (* ---- pedantic_class_require_docstring: the methods are decorated in order ---------------------------------------------- *)
 Theorem C19_class_all_methods : forall l,
@@ -203,6 +162,18 @@ Proof.
 Qed.
 Print Assumptions C19_vocabulary_is_evaluable.
 
+(* ---- the witnesses of the two fixed findings, on the repaired code --------------------------------------------------------- *)
+(* def f(a: Foo | None) with `a (Foo | None): ...` is accepted *)
+Example ex_pipe_accepted :
+  check docstring_prog (fc true [("a", TPipe [TCls "Foo"; TCls "NoneType"])]
+                           (mkdoc RawText [("a", Some (dt "Foo | None" (EOr (EName "Foo") ENone)))] None)) = Ok tt.
+Proof. vm_compute. reflexivity. Qed.
+
+(* def f(a: int) with `a: ...` instead of `a (int): ...` raises PedanticDocstringException *)
+Example ex_untyped_rejected :
+  check docstring_prog (fc true [("a", TCls "int")] (mkdoc RawText [("a", None)] None)) = Raise PDocstringC.
+Proof. vm_compute. reflexivity. Qed.
+
 (* ---- non-vacuity ---------------------------------------------------------------------------------------------------------- *)
 (* def f(a: Optional[List[Foo]], *args: int, k: Dict[str, Foo] | None) -> Callable[[Foo], int]   with a faithful docstring
    that respells Optional[...] as Union[..., None] *)
@@ -219,7 +190,7 @@ Definition ex_ret : dtype := dt "Callable[[Foo], int]" (ESub (EName "Callable") 
 Definition ex_doc : docT := mkdoc RawText [("k", Some ex_k); ("a", Some ex_a); ("args", Some ex_args)] (Some [ex_ret]).
 
 Example ex_guards : sig_ok ex_ann = true /\ scope_ok ex_scope ex_ann = true /\ doc_no_typing_dot ex_doc = true /\
-  ctx_covers [] ex_ann = true /\ doc_typed ex_doc = true /\ doc_evaluable ex_scope ex_doc = true.
+  doc_evaluable ex_scope ex_doc = true.
 Proof. repeat split; vm_compute; reflexivity. Qed.
 
 Example ex_consistent : consistent ex_scope ex_ann ex_doc.
@@ -227,6 +198,9 @@ Proof. apply consistentb_iff; [apply nodupb_NoDup; vm_compute; reflexivity|vm_co
 
 Example ex_accepted : decorate docstring_prog (fc false ex_ann ex_doc) = Ok tt.
 Proof. vm_compute. reflexivity. Qed.
+
+Example ex_edit_untype : one_edit ex_scope ex_doc (mkdoc RawText ([("k", Some ex_k)] ++ ("a", None) :: [("args", Some ex_args)]) (Some [ex_ret])).
+Proof. apply (E_untype_param ex_scope RawText [("k", Some ex_k)] "a" ex_a). Qed.
 
 (* one edit of every kind is possible on it *)
 Example ex_edit_rename : one_edit ex_scope ex_doc (mkdoc RawText ([("k", Some ex_k)] ++ ("b", Some ex_a) :: [("args", Some ex_args)]) (Some [ex_ret])).
